@@ -53,7 +53,7 @@ def DOpAsg(c, n, op, e): return N("dopasg", c=c, n=n, op=op, e=e)
 def Block(xs): return N("block", xs=list(xs))
 def Core(f, args): return N("core", f=f, args=list(args))
 def MCall(c, m, args): return N("mcall", c=c, m=m, args=list(args))
-def App(f, args): return N("app", f=f, args=list(args))
+def App(f, args, form="paren"): return N("app", f=f, args=list(args), form=form)
 def Throw(e): return N("throw", e=e)
 def Continue(): return N("continue")
 
@@ -69,7 +69,8 @@ def Switch(cs, bs, e=None):
 def While(c, b): return N("while", c=c, b=b)
 def Until(c, b): return N("until", c=c, b=b)
 def Loop(b): return N("loop", b=b)
-def For(vars_, it, b): return N("for", vars=list(vars_), it=it, b=b)
+def For(vars_, it, b, tys=None):
+    return N("for", vars=list(vars_), it=it, b=b, tys=list(tys) if tys else ["" for _ in vars_])
 
 
 def Break(e=None):
@@ -80,13 +81,57 @@ def Return(e=None):
     return N("return", has=e is not None, e=e if e is not None else Null())
 
 
-def Param(n, kind="pos", d=None):
-    return {"n": n, "kind": kind}
+def PWild(name="_"): return {"p": "wild", "n": name}
+def PId(n): return {"p": "id", "n": n}
+def PLit(node): return {"p": "lit", "v": node}
+def PTyped(n, ty): return {"p": "typed", "n": n, "ty": ty}
+def PTup(xs, rest="none", rn=""): return {"p": "tup", "xs": list(xs), "rest": rest, "rn": rn}
+def PMap(ks, ns=None): return {"p": "map", "ks": list(ks), "ns": list(ns or ks)}
 
 
-def Fn(params, body, defaults=(), free=(), gen=False):
-    """params: list of {n, kind in pos|def|var}; defaults: expressions for the 'def' params in order."""
-    return N("fn", params=list(params), defaults=list(defaults), body=body, free=sorted(set(free)), gen=bool(gen))
+def pat_names(p, acc=None):
+    """Names bound by a pattern."""
+    if acc is None:
+        acc = []
+    k = p["p"]
+    if k in ("id", "typed"):
+        if not p["n"].startswith("_"):
+            acc.append(p["n"])
+    elif k == "tup":
+        if p["rest"] == "first" and p["rn"]:
+            acc.append(p["rn"])
+        for x in p["xs"]:
+            pat_names(x, acc)
+        if p["rest"] == "last" and p["rn"]:
+            acc.append(p["rn"])
+    elif k == "map":
+        acc += [n for n in p["ns"] if not n.startswith("_")]
+    return acc
+
+
+def Param(n, kind="pos", ty="", pat=None):
+    """kind: pos | def | var | pat (unpacking pattern in `pat`)"""
+    return {"n": n, "kind": kind, "ty": ty, "pat": pat if pat is not None else PWild()}
+
+
+def Fn(params, body, defaults=(), free=(), gen=False, ret=""):
+    """params: list of Param; defaults: expressions for the 'def' params in order."""
+    return N("fn", params=list(params), defaults=list(defaults), body=body, free=sorted(set(free)), gen=bool(gen),
+             ret=ret)
+
+
+def Yield(e): return N("yield", e=e)
+def Spread(e): return N("spread", e=e)
+def Let(n, ty, e): return N("let", n=n, ty=ty, e=e)
+
+
+def Arm(pats, body, guard=None):
+    return {"pats": list(pats), "has_guard": guard is not None, "guard": guard if guard is not None else Null(),
+            "b": body}
+
+
+def Match(subj, arms, e=None):
+    return N("match", subj=subj, arms=list(arms), has_else=e is not None, e=e if e is not None else Null())
 
 
 def Try(b, catches, fin=None):
@@ -110,8 +155,17 @@ def children(n):
         return [n["a"], n["b"]]
     if k == "idx":
         return [n["c"], n["i"]]
-    if k in ("asg", "opasg", "throw", "masg"):
+    if k in ("asg", "opasg", "throw", "masg", "yield", "spread", "let"):
         return [n["e"]]
+    if k == "match":
+        r = [n["subj"]]
+        for a in n["arms"]:
+            if a["has_guard"]:
+                r.append(a["guard"])
+            r.append(a["b"])
+        if n["has_else"]:
+            r.append(n["e"])
+        return r
     if k in ("iasg", "iopasg"):
         return [n["c"], n["i"], n["e"]]
     if k == "dot":
@@ -309,7 +363,7 @@ class Renderer:
         if k == "mcall":
             return "%s.%s(%s)" % (self.recv(n["c"]), n["m"], ", ".join(self.paren(a) for a in n["args"]))
         if k == "app":
-            return "%s(%s)" % (self.recv(n["f"]), ", ".join(self.paren(a) for a in n["args"]))
+            return "%s(%s)" % (self.recv(n["f"]), ", ".join(self.arg(a) for a in n["args"]))
         if k == "asg":
             return "%s = %s" % (n["n"], self.paren(n["e"]))
         if k == "opasg":
@@ -332,6 +386,12 @@ class Renderer:
             return s
         if k == "throw":
             return "throw %s" % self.paren(n["e"])
+        if k == "yield":
+            return "yield %s" % self.paren(n["e"])
+        if k == "spread":
+            return "%s..." % self.paren_strict(n["e"])
+        if k == "let":
+            return "let %s: %s = %s" % (n["n"], n["ty"], self.paren(n["e"]))
         if k == "break":
             return "break" + (" " + self.paren(n["e"]) if n["has"] else "")
         if k == "continue":
@@ -345,6 +405,32 @@ class Renderer:
                 return self.expr(n["xs"][0])
             raise ValueError("multi-statement block in expression position")
         raise ValueError("cannot render %s inline" % k)
+
+    def arg(self, a):
+        return self.expr(a) if a["k"] == "spread" else self.paren(a)
+
+    def pat(self, p):
+        k = p["p"]
+        if k == "wild":
+            return p.get("n", "_")
+        if k == "id":
+            return p["n"]
+        if k == "typed":
+            return "%s: %s" % (p["n"], p["ty"])
+        if k == "lit":
+            return self.expr(p["v"])
+        if k == "tup":
+            xs = [self.pat(x) for x in p["xs"]]
+            if p["rest"] == "first":
+                xs = [p["rn"] + "..."] + xs
+            elif p["rest"] == "last":
+                xs = xs + [p["rn"] + "..."]
+            if len(xs) == 1 and p["rest"] == "none":
+                return "(" + xs[0] + ",)"
+            return "(" + ", ".join(xs) + ")"
+        if k == "map":
+            return "{" + ", ".join(kk if kk == nn else "%s as %s" % (kk, nn) for kk, nn in zip(p["ks"], p["ns"])) + "}"
+        raise ValueError(k)
 
     def paren_strict(self, n):
         """Parenthesise everything that is not a plain non-negative atom."""
@@ -371,20 +457,23 @@ class Renderer:
         ps = []
         di = 0
         for p in n["params"]:
+            ty = (": " + p["ty"]) if p.get("ty") else ""
             if p["kind"] == "pos":
-                ps.append(p["n"])
+                ps.append(p["n"] + ty)
             elif p["kind"] == "def":
-                ps.append("%s = %s" % (p["n"], self.paren(n["defaults"][di])))
+                ps.append("%s%s = %s" % (p["n"], ty, self.paren(n["defaults"][di])))
                 di += 1
             elif p["kind"] == "var":
                 ps.append(p["n"] + "...")
-        return "|" + ", ".join(ps) + "|"
+            elif p["kind"] == "pat":
+                ps.append(self.pat(p["pat"]))
+        return "|" + ", ".join(ps) + "|" + ((" -> " + n["ret"]) if n.get("ret") else "")
 
     # -- statements (block form) -------------------------------------------------------------------
     def is_inline(self, n):
         """Can n be rendered on one line by expr()?"""
         k = n["k"]
-        if k in ("switch", "while", "until", "loop", "for", "try"):
+        if k in ("switch", "while", "until", "loop", "for", "try", "match"):
             return False
         if k == "block":
             return len(n["xs"]) == 1 and self.is_inline(n["xs"][0])
@@ -466,7 +555,23 @@ class Renderer:
         if k == "loop":
             return [pad + "loop"] + self.block(n["b"], depth + 1)
         if k == "for":
-            return [pad + "for %s in %s" % (", ".join(n["vars"]), self.paren(n["it"]))] + self.block(n["b"], depth + 1)
+            vs = ", ".join(v + ((": " + t) if t else "") for v, t in zip(n["vars"], n["tys"]))
+            return [pad + "for %s in %s" % (vs, self.paren(n["it"]))] + self.block(n["b"], depth + 1)
+        if k == "match":
+            lines = [pad + "match " + self.paren(n["subj"])]
+            p1 = self.ind * (depth + 1)
+            for a in n["arms"]:
+                head = p1 + " or ".join(self.pat(p) for p in a["pats"])
+                if a["has_guard"]:
+                    head += " if " + self.paren(a["guard"])
+                lines += self.arm(head + " then", a["b"], depth + 1)
+            if n["has_else"]:
+                lines += self.arm(p1 + "else", n["e"], depth + 1)
+            return lines
+        if k == "app" and self.call_free_ok(n) and self.L.pick(3, 0.4):
+            return [pad + self.free_call(n)]
+        if k == "asg" and n["e"]["k"] == "app" and self.call_free_ok(n["e"]) and self.L.pick(3, 0.4):
+            return [pad + n["n"] + " = " + self.free_call(n["e"])]
         if k == "try":
             lines = [pad + "try"] + self.block(n["b"], depth + 1)
             for c in n["catches"]:
@@ -497,6 +602,29 @@ class Renderer:
         if k in ("neg",) or (k == "int" and n["v"] < 0) or (k == "flt" and n["n"] < 0):
             return [pad + "(" + self.expr(n) + ")"]
         return [pad + self.expr(n)]
+
+    def call_free_ok(self, n):
+        """Paren-free / piped call forms (guide: Optional Call Parentheses, Function Piping): used only in
+        statement or assignment-rhs position with simple arguments."""
+        if n["f"]["k"] != "id" or not n["args"]:
+            return False
+        for a in n["args"]:
+            x = a["e"] if a["k"] == "spread" else a
+            if x["k"] not in ("id", "int", "str", "bool", "null", "list", "tuple", "flt"):
+                return False
+            if x["k"] in ("int",) and x["v"] < 0 or x["k"] == "flt" and x["n"] < 0:
+                return False
+            if x["k"] == "tuple" and a["k"] == "spread":
+                return False
+        return True
+
+    def free_call(self, n):
+        args = [self.arg(a) for a in n["args"]]
+        if n["args"][0]["k"] != "spread" and self.L.pick(2, 0.5):
+            # a -> f b   ==  f(a, b)
+            rest = ", ".join(args[1:])
+            return "%s -> %s%s" % (args[0], n["f"]["n"], (" " + rest) if rest else "")
+        return "%s %s" % (n["f"]["n"], ", ".join(args))
 
     def arm(self, head, body, depth):
         if self.is_inline(body) and self.single(body)["k"] not in ("if", "masg") and self.L.pick(2, 0.5) == 0:
